@@ -274,6 +274,10 @@ add(
       "raw text of each JSON value class (true,false,null,number,negative number,string,[],{}), conversion From<LazyValue>; string escape status symbolic", exp_gb=8, cost=12),
     H("u_owned_new_types", "main", ["C13", "C01"], ["OwnedLazyValue::new (used by to_lazyvalue and the parser)", "OwnedLazyValue::get_type/as_bool", "LazyRaw::get_type"],
       "raw text of each JSON value class, constructor `new`; string escape status symbolic", exp_gb=8, cost=12),
+    H("u_owned_view_of_raw_array", "main", ["C13", "C01"], ["OwnedLazyValue::as_array (raw value)", "impl Deref for LazyArray", "LazyRaw::load", "LazyRaw::get_type"],
+      "raw `[]`; the one-level parser cut to an empty array; no second reader", stubs=[CUT_LOAD, CUT_DROP], mem_gb=24, exp_gb=8, cost=60),
+    H("u_owned_view_of_raw_object", "main", ["C13", "C01"], ["OwnedLazyValue::as_object (raw value)", "impl Deref for LazyObject", "LazyRaw::load", "LazyRaw::get_type"],
+      "raw `{}`; the one-level parser cut to an empty object; no second reader", stubs=[CUT_LOAD, CUT_DROP], mem_gb=24, exp_gb=8, cost=60),
     H("u_owned_mut_probe_keeps_raw", "main", ["C13"], ["OwnedLazyValue::as_array_mut", "OwnedLazyValue::as_object_mut", "LazyRaw::get_type"],
       "four concrete raw texts (number, escaped string, {}, []) probed for the other container kind", stubs=[CUT_LOAD, CUT_DROP], mem_gb=28, exp_gb=8, cost=6),
     H("m_array_iter_latch", "main", ["C12", "C20"], ["ArrayJsonIter::next_elem_impl"],
@@ -318,6 +322,32 @@ add(
     H("k_number_classification", "main", ["C07"], ["impl From<ParserNumber> for Number", "Number::{is_u64,is_i64,is_f64,as_u64,as_i64,as_f64,from_f64}", "impl From<i64/u64> for Number"],
       "every u64, every negative i64, every finite f64 (complete)", cost=2),
     H("k_pow10_tables", "number", ["C07"], ["POW10_FLOAT", "POW10_UINT"], "all 23 / 18 entries (complete)", cost=1),
+)
+
+# ================= SMT over the compiler's MIR (smt/): table-driven float construction ===========
+# crate "smt": decided by z3/cvc5 on linear integer arithmetic generated from `rustc -Zunpretty=mir`
+# of the scratch copy; `args` go to smt/float_check.py
+SMT_FUNCS = ["sonic_number::parse_float (guards, sign, routing)", "sonic_number::parse_floating_normal_fast", "sonic_number::lemire::full_multiplication",
+             "POWER_OF_FIVE_128 (from the compiler's allocation dump)"]
+SMT_CUTS = ["opaque (paths through them are outside the claim and counted): parse_float_fast, lemire::compute_float, slow::parse_long_mantissa, biased_fp_to_float, f64::is_infinite",
+            "assumption: 1 <= significand < 10^19 (what parse_number passes when no digit was truncated)",
+            "model: x << leading_zeros(x) as a fresh normalised n with lz free (over-approximation); counterexamples are made exact by pinning lz before replay",
+            "dev-profile overflow assertion at `add + 1` (parse_floating_normal_fast bb23) is not decided by either solver and is not claimed"]
+_b = ",".join(str(e) for e in list(range(-312, -299)) + list(range(280, 296)))
+_s = ",".join(str(e) for e in sorted(set(range(-345, 346, 4)) | set(range(-25, 41))))
+add(
+    H("s_float_fast_bounds", "smt", ["C02", "C07", "C08"], SMT_FUNCS,
+      "decimal exponents -312..=-300 and 280..=295 (both ends of the guard) x every significand 1 <= w < 10^19 x sign x trunc; 20 s per query",
+      stubs=SMT_CUTS, args=["--exps=" + _b, "--jobs", "6", "--timeout-ms", "20000"], cost=60, timeout=800),
+    H("s_float_fast_sampled", "smt", ["C07", "C08"], SMT_FUNCS,
+      "every 4th decimal exponent in -345..=345 and all of -25..=40 x every significand 1 <= w < 10^19 x sign x trunc; 20 s per query",
+      stubs=SMT_CUTS, args=["--exps=" + _s, "--jobs", "8", "--timeout-ms", "20000"], cost=200, timeout=850),
+    H("s_float_fast_all", "smt", ["C02", "C07", "C08"], SMT_FUNCS,
+      "every decimal exponent in -345..=345 x every significand 1 <= w < 10^19 x sign x trunc; 120 s per query",
+      stubs=SMT_CUTS, args=["--emin", "-345", "--emax", "345", "--jobs", "14", "--timeout-ms", "120000"], tier=T, cost=600, timeout=5400),
+    H("s_float_fast_bounds_2solvers", "smt", ["C02", "C07", "C08"], SMT_FUNCS,
+      "as s_float_fast_bounds, every rounding query answered by both z3 and cvc5 and compared",
+      stubs=SMT_CUTS, args=["--exps=" + _b, "--jobs", "14", "--timeout-ms", "60000", "--both"], tier=T, cost=600, timeout=5400),
 )
 
 # ================= sonic-simd (selected backend) and the external crate ===========================
@@ -369,8 +399,10 @@ EXPERIMENTAL = [
     H("b_format_string_w28", "main", [], ["format_string (32-byte block loop + tail)"], "34-byte string with a 6-byte window at 28..34",
       stubs=[MAXEPU8, CUT_FMT], tier=T, exp_gb=10, mem_gb=24,
       unwindset=[("ref_escape", None, 36), ("escape_unchecked", None, 8), ("::format_string", -1, 8), ("b_format_string_w28", None, 8)]),
-    H("m_dom_array2_n7", "main", [], ["Parser::parse_array2"], "every buffer <= 7 after '[' without nested '['", stubs=[CUT_SYNTAX, M_WS, M_DOMSTR], tier=T),
-    H("m_dom_array_n7", "main", [], ["Parser::parse_array"], "every buffer <= 7 after '[' without nested '['", stubs=[CUT_SYNTAX, M_WS, M_DOMSTR], tier=T),
+    H("m_dom_array2_n7", "main", [], ["Parser::parse_array2"], "every buffer <= 7 after '[' without nested '['", stubs=[CUT_SYNTAX, M_WS, M_DOMSTR], tier=T, mem_gb=24, exp_gb=8,
+      unwindset=[("verif_kani_parser_walk::setup", None, 9), ("ref_array_events", None, 6), ("dom_array_body", None, 9), ("ref_skip_ws", None, 9), ("ref_string_end", None, 9), ("ref_number_end", None, 9), ("ref_literal_end", None, 7), ("ref_has_backslash", None, 9), ("try_from_fn", None, 9)]),
+    H("m_dom_array_n7", "main", [], ["Parser::parse_array"], "every buffer <= 7 after '[' without nested '['", stubs=[CUT_SYNTAX, M_WS, M_DOMSTR], tier=T, mem_gb=24, exp_gb=8,
+      unwindset=[("verif_kani_parser_walk::setup", None, 9), ("ref_array_events", None, 6), ("dom_array_body", None, 9), ("ref_skip_ws", None, 9), ("ref_string_end", None, 9), ("ref_number_end", None, 9), ("ref_literal_end", None, 7), ("ref_has_backslash", None, 9), ("try_from_fn", None, 9)]),
     H("m_get_array_unchecked_n8", "main", [], ["Parser::get_from_array"], "well-formed texts <= 8", stubs=[CUT_SYNTAX, M_WS], tier=T, mem_gb=28, exp_gb=10),
     H("m_get_object_unchecked_n9", "main", [], ["Parser::get_from_object"], "well-formed texts <= 9", stubs=[CUT_SYNTAX, M_WS], tier=T, mem_gb=28, exp_gb=10),
     H("m_depth_any_seq", "main", [], ["deserialize_any on '['"], "every budget d", stubs=[CUT_SYNTAX, M_WS, CUT_PIT, CUT_FIX], tier=T),
